@@ -106,6 +106,31 @@ def _eligible(fn, v):
     return True
 
 
+def _carrier(fn, v, vs):
+    """v only carries a result to an exit or a flag to a test: every read is `_0 = v`, `w = v` for another such variable, or
+    `t = v; switch t` - never an operand of arithmetic, a comparison, an aggregate or a call (a variable that is computed WITH is an
+    ordinary variable: the rules read those as they are)"""
+    for b in fn["blocks"]:
+        sw = b["term"]["on"]["pl"]["l"] if b["term"]["t"] == "switch" and b["term"]["on"].get("k") in ("copy", "move") and not b["term"]["on"]["pl"]["p"] else None
+        if sw == v:
+            continue
+        for s in b["stmts"]:
+            if s["s"] != "assign":
+                continue
+            ops = []
+            _operands(s["rv"], ops)
+            if not any(o.get("k") in ("copy", "move") and o["pl"]["l"] == v for o in ops):
+                continue
+            rv = s["rv"]
+            if not (rv.get("r") == "use" and _whole_use(rv["a"], v) and not s["lhs"]["p"]):
+                return False
+            t = s["lhs"]["l"]
+            if t == 0 or t in vs or t == sw:
+                continue
+            return False
+    return True
+
+
 def _defs_in(b, v):
     return [j for j, s in enumerate(b["stmts"]) if s["s"] == "assign" and s["lhs"]["l"] == v and not s["lhs"]["p"]]
 
@@ -397,6 +422,11 @@ def run(d, cfg=None):
             continue   # a reviewed variable is gone: this is a renaming (or a rewrite), not an added result variable
         vs = {l for l, loc in enumerate(fn["locals"]) if l > fn.get("argc", 0) and loc.get("name") and loc["name"] not in names}
         vs = {v for v in vs if _eligible(fn, v) and sum(len(_defs_in(b, v)) for b in fn["blocks"]) >= 2}
+        for _ in range(3):
+            keep = {v for v in vs if _carrier(fn, v, vs)}
+            if keep == vs:
+                break
+            vs = keep
         if not vs:
             continue
         # an unnamed temporary assigned on several arms whose only readers are `v = move t` for such a variable is part of it
